@@ -13,12 +13,46 @@ SRC = os.path.join(HERE, "harness.cpp")
 ASAN_ENV = {"ASAN_OPTIONS": vlib.ASAN_ENV + ":max_allocation_size_mb=256"}
 
 
-def build(fast=False):
+TAGS = {"san": "c13", "fast": "c13-fast", "uchar": "c13-uchar"}
+
+
+def build(kind="san"):
     # _GLIBCXX_ASSERTIONS + -fsanitize=bounds: the property itself is about indexing (DESIGN.md section 2)
-    if fast:
+    if kind == "fast":
         # same source, no sanitizers: only for the two 2^32 families of the thorough tier
         return vlib.compile_cxx(SRC, "c13fast", std="c++14", opt="-O2", san="none", defines=["_GLIBCXX_ASSERTIONS"])
+    if kind == "uchar":
+        # CONFIGURATION: plain char unsigned (as on ARM/PowerPC Linux), all sanitizers on
+        return vlib.compile_cxx(SRC, "c13uchar", std="c++14", opt="-O2", san="asan", defines=["_GLIBCXX_ASSERTIONS"], flags=["-funsigned-char"])
     return vlib.compile_cxx(SRC, "c13", std="c++14", opt="-O2", san="asan", defines=["_GLIBCXX_ASSERTIONS"])
+
+
+TERMS = ("none", "pad", "nl", "high", "dash")
+
+
+def sweep_jobs(lmax, a, b):
+    """every length-sweep family restricted to the lengths a <= L < b: encode x 2 contents, decode x 2 contents x 5 terminators x (padded, and
+    for L % 3 != 0 also with the padding removed)"""
+    def nu(x):      # number of L in [1, x) with L % 3 != 0 = index of the first such L >= x in an unpadded family
+        return 0 if x <= 0 else (x - 1) - (x - 1) // 3
+    jobs = []
+    for c in "cf":
+        jobs.append(("--job", "enc", "sweep:%s:%d" % (c, lmax), str(a), str(b)))
+        for t in TERMS:
+            jobs.append(("--job", "dec", "sweepdec:%s:%s:p:%d" % (c, t, lmax), str(a), str(b)))
+            # unpadded + "=" would repeat the padded string for L % 3 == 2, so the unpadded variant takes the other four terminators
+            if nu(b) > nu(a) and t != "pad":
+                jobs.append(("--job", "dec", "sweepdec:%s:%s:u:%d" % (c, t, lmax), str(nu(a)), str(nu(b))))
+    return jobs
+
+
+def sweep_plan(kind, lmax, n, sample_shard):
+    """n processes; cost grows with L^2, so the L ranges are cut at lmax*sqrt(k/n) to give every process about the same work"""
+    out = []
+    cuts = sorted(set([0] + [int((lmax + 1) * (k / n) ** 0.5) for k in range(1, n)] + [lmax + 1]))
+    for k in range(len(cuts) - 1):
+        out.append((kind, sweep_jobs(lmax, cuts[k], cuts[k + 1]), 2 if k == sample_shard else 0))
+    return out
 
 
 def shards(mode, family, count, n):
@@ -47,7 +81,7 @@ def plan(tier):
         enc_b.insert(0, ("enc6:4", 6 ** 4))        # thorough: subsumed by full:4
     else:
         enc_b += [("enc6:7", 6 ** 7), ("enc6:8", 6 ** 8)]
-    P.append(("san", small("enc", enc_b), 2 if thorough else 3))
+    P.append(("san", small("enc", enc_b), 1 if thorough else 2))
     P += [("san", j, int(k == 9)) for k, j in enumerate(shards("enc", "full:3", 256 ** 3, 16))]
     # ---- decode of arbitrary text ---------------------------------------------------------------------------------
     P.append(("san", small("dec", [("full:0", 1), ("full:1", 256), ("full:2", 256 ** 2)]), 1))
@@ -57,9 +91,19 @@ def plan(tier):
     for l in range(0, 5 if thorough else 4):
         for p in (16, 17, 18, 19):
             dec_b.append(("heap13:%d:%d" % (p, l), 13 ** l))
-    P.append(("san", small("dec", dec_b), 2 if thorough else 3))
+    P.append(("san", small("dec", dec_b), 1 if thorough else 2))
     P += [("san", j, int(k == 1)) for k, j in enumerate(shards("dec", "dec13:6", 13 ** 6, 4))]
     P += [("san", j, int(k == 4)) for k, j in enumerate(shards("dec", "full:3", 256 ** 3, 16))]
+    # ---- LENGTH SWEEP: every length 0..LMAX x 2 contents (x 5 terminators x padded/unpadded for decode) ----------------
+    P += sweep_plan("san", 70000 if thorough else 20000, 64 if thorough else 16, 1)
+    # ---- CONFIGURATION: the same harness built with -funsigned-char -------------------------------------------------------
+    P.append(("uchar", small("dec", [("full:0", 1), ("full:1", 256), ("full:2", 256 ** 2)]) + small("enc", [("full:0", 1), ("full:1", 256), ("full:2", 256 ** 2)]), 1))
+    P.append(("uchar", small("dec", [(f, c) for f, c in dec_b] + ([("dec13:4", 13 ** 4)] if thorough else [])), 0))
+    P += [("uchar", j, 0) for j in shards("dec", "dec13:6", 13 ** 6, 4)]
+    P += sweep_plan("uchar", 3000, 1, -1)
+    if thorough:
+        P += [("uchar", j, 0) for j in shards("dec", "full:3", 256 ** 3, 16)]
+        P += [("uchar", j, 0) for j in shards("dec", "dec13:7", 13 ** 7, 16)]
     if thorough:
         P += [("san", j, 0) for j in shards("dec", "dec13:7", 13 ** 7, 16)]
         P += [("san", j, 0) for j in shards("dec", "dec13:8", 13 ** 8, 96)]
@@ -92,6 +136,12 @@ def reference_selfcheck(ctx, binary):
     for f, c in [("full:0", 1), ("full:1", 256), ("dec13:2", 13 ** 2), ("dec13:3", 13 ** 3), ("dec13:4", 13 ** 4), ("heap13:16:2", 169), ("heap13:17:2", 169),
                  ("heap13:18:2", 169), ("heap13:19:2", 169)]:
         args += ["--refdump", "dec", f, "0", str(c)]
+    # long strings: the reference's own behaviour across group/quantum boundaries far from the start (length sweep families)
+    for f, lo, hi in [("sweep:c:70000", 254, 259), ("sweep:f:70000", 4094, 4099), ("sweep:c:70000", 19998, 20001), ("sweep:f:70000", 65535, 65538)]:
+        args += ["--refdump", "enc", f, str(lo), str(hi)]
+    for f, lo, hi in [("sweepdec:c:none:p:70000", 766, 770), ("sweepdec:c:high:u:70000", 2000, 2004), ("sweepdec:f:dash:p:70000", 19998, 20001),
+                      ("sweepdec:c:nl:u:70000", 43690, 43693), ("sweepdec:f:pad:p:70000", 65535, 65538)]:
+        args += ["--refdump", "dec", f, str(lo), str(hi)]
     recs = ctx.run_harness(binary, args, tag="c13", env=ASAN_ENV)
     n = 0
     for r in recs:
@@ -109,16 +159,15 @@ def reference_selfcheck(ctx, binary):
     if n < 100000:
         raise vlib.HarnessError("reference self-check saw only %d records" % n)
     ctx.note("reference self-check: refs/C13_rfc4648.hpp agreed with python's base64 module on %d strings (encode: all of length <= 2, enc6^4, long family; "
-             "spec decode: all dec13 strings of length <= 4, all single bytes, heap family)" % n)
+             "spec decode: all dec13 strings of length <= 4, all single bytes, heap family; plus 33 length-sweep strings of 254..87388 bytes)" % n)
 
 
 def run(ctx):
     thorough = ctx.tier == "thorough"
     bins = {}
-    if thorough:
-        bins["san"], bins["fast"] = vlib.parallel([lambda: build(False), lambda: build(True)])
-    else:
-        bins["san"] = build(False)
+    kinds = ["san", "uchar"] + (["fast"] if thorough else [])
+    for k, b in zip(kinds, vlib.parallel([(lambda k=k: build(k)) for k in kinds])):
+        bins[k] = b
     reference_selfcheck(ctx, bins["san"])
     budget_end = time.time() + min(ctx.time_left() - 45, 1700 if thorough else 300)
 
@@ -134,13 +183,23 @@ def run(ctx):
                 args += ["--samples", str(sampled)]
             for j in jobs:
                 args += list(j)
-            ctx.run_harness(bins[kind], args, tag="c13" if kind == "san" else "c13-fast", env=ASAN_ENV, timeout=left + 300)
+            recs = ctx.run_harness(bins[kind], args, tag=TAGS[kind], env=ASAN_ENV, timeout=left + 300)
+            n = sum(r["v"] for r in recs if r.get("t") == "stat" and r.get("k") == "evaluations")
+            if kind == "uchar":
+                ctx.stat("cases_in_unsigned_char_build", n)
+            if jobs and jobs[0][2].startswith("sweep"):
+                ctx.stat("length_sweep_cases", n)
         return f
 
     vlib.parallel([job(k, j, s) for k, j, s in plan(ctx.tier)], workers=min(vlib.NCPU, 16))
 
     # the driver keeps the first violation per signature: make that the one with the shortest input (then the smallest)
-    ctx.viols.sort(key=lambda v: (v["sig"], len(v["args"][2]) if len(v["args"]) > 2 else 0, v["args"]))
+    def size_key(v):
+        a = v["args"]
+        if len(a) < 5:
+            return 0
+        return (len(a[2]) - 5) // 2 if a[2].startswith("lit:x") else 100 + int(a[3])     # sweep cases: index ~ length, always > 64 bytes
+    ctx.viols.sort(key=lambda v: (v["sig"], size_key(v), v["args"]))
     if ctx.stats.get("not_executed_after_crash", 0):
         ctx.cap("%d cases were NOT executed: in each harness process, after 2 inputs of one input class (e.g. 'first non-alphabet byte is >= 0x80') had killed the child, "
                 "the remaining inputs of that class were skipped (see the crash violations); the run is therefore not exhaustive" % ctx.stats["not_executed_after_crash"])
@@ -153,18 +212,25 @@ def run(ctx):
         "DECODE cases (t -> base64decode(t) compared with the specification decode: longest leading run of alphabet characters, floor(6k/8) whole bytes): "
         "ALL strings of length 0..%s over all 256 byte values; all strings of length %s over {A,z,9,+,/,=,space,\\n,-,_,00,80,FF}; and 16..19 valid characters followed by every "
         "string of length 0..%s over those 13 bytes (input in an exact-size heap block). "
-        "The families are disjoint by length/content, so every case is distinct by construction; index = the string as a number in base |alphabet|. "
+        "LENGTH SWEEP: every length L in 0..%d with two contents per length (counting pattern 00 01 .. FF 00 ..; all FF for even L / all 80 for odd L): encode + RFC comparison + round trip, "
+        "and decode of the reference encoding of each of those strings followed by each of the terminators {'', '=', '\\n', '\\x80', '-'}, once padded and (for L %% 3 != 0, terminators other than '=') once with the '=' removed "
+        "- the complete length x content x terminator x padding product. Sweep strings of at most 256 plain bytes can coincide with a short-string case and are executed but not counted in distinct_nontrivial. "
+        "CONFIGURATION: the harness is built a second time with -funsigned-char and, in that build, runs all strings of length 0..%s over all 256 bytes (decode, and 0..2 encode), the 13-byte-alphabet "
+        "family of length %s, the 16..19-character-prefix family and the same sweep product for L in 0..3000; a case is (configuration, operation, input). "
+        "The families are disjoint by length/content, so every case is distinct by construction; index = the string as a number in base |alphabet| (sweep: the length). "
         "distinct_nontrivial counts, as measured by the harness, the encode cases whose input contains a NUL or a byte >= 0x80 plus the decode cases whose input is NOT the canonical "
         "RFC 4648 encoding of any byte string (dirty, truncated, wrongly padded or non-zero trailing bits); the dec[...] / enc[...] counters break the cases down by "
         "first-stop class x run length mod 4 and by length mod 3 x content."
-        % ("4" if t else "3", "5..8" if t else "4..6", "4" if t else "3", "5..8" if t else "4..6", "4" if t else "3"))
+        % ("4" if t else "3", "5..8" if t else "4..6", "4" if t else "3", "5..8" if t else "4..6", "4" if t else "3",
+           70000 if t else 20000, "3" if t else "2", "4..7" if t else "4..6"))
     ctx.assumptions += [
         "refs/C13_rfc4648.hpp (range arithmetic, 3-byte groups, bit-by-bit spec decode; no table, no accumulator) is the reference; it is cross-checked against python's base64 module on >100000 strings in every run",
         "strings longer than %s bytes are covered only by the stated structured families (6- and 13-byte alphabets up to length %s, alternating strings up to 64, rotations of 00..FF, 16..19-character valid prefixes), not exhaustively"
         % ("4" if t else "3", "8" if t else "6"),
         "out-of-table / out-of-input indexing is observed through _GLIBCXX_ASSERTIONS, -fsanitize=bounds and AddressSanitizer; inputs shorter than 16 bytes live inside the std::string object (small-string buffer), so an over-read of the INPUT is only observable for the heap-resident families (length >= 16)",
         "only the behaviour the statement fixes is judged: returned strings, termination, memory safety. Signed-overflow/shift UB of the int accumulators (val << 6, val << 8) is deliberately not judged (DESIGN.md section 2)",
-        "char is signed on this platform (x86-64 Linux, g++ 12); an unsigned-char platform is not exercised",
+        "plain char: signed (platform default, every family) and unsigned (-funsigned-char build, the decode families listed in the rule); other ABI differences of a real unsigned-char platform are not exercised",
+        "lengths above %d bytes are not exercised; between %s and that bound only the two sweep contents per length are" % (70000 if t else 20000, "5" if t else "4"),
     ]
     if t:
         ctx.assumptions.append("the two 2^32 families (all 4-byte strings, encode and decode) run in a build of the same harness WITHOUT AddressSanitizer/UBSan (still with _GLIBCXX_ASSERTIONS); every other family runs with them")
@@ -173,5 +239,5 @@ def run(ctx):
 
 
 def replay(ctx, rec):
-    fast = rec.get("harness") == "c13-fast"
-    ctx.run_harness(build(fast), rec["args"], tag=rec.get("harness") or "c13", env=ASAN_ENV)
+    kind = {v: k for k, v in TAGS.items()}.get(rec.get("harness"), "san")
+    ctx.run_harness(build(kind), rec["args"], tag=TAGS[kind], env=ASAN_ENV)
